@@ -700,3 +700,82 @@ def hostkey_block_guard_fact():
                   and t.operand.attr == "gss_kex_used")
             return ok, txt
     return False, "no guarded host-key block found"
+
+
+# ---------------------------------------------------------------------------------------------
+# hashed known_hosts names: host names that a WEAK comparison would confuse with a stored entry
+# ---------------------------------------------------------------------------------------------
+FIXED_SALT = "cHYtYzE3LWZpeGVkLXNhbHQtMjA="      # base64 of the 20 bytes b"pv-c17-fixed-salt-20"
+
+
+def hashed_name(hostname, salt=FIXED_SALT):
+    """reference implementation of the OpenSSH hashed host name: |1|b64(salt)|b64(HMAC-SHA1(salt, name))"""
+    import base64
+    import hashlib
+    import hmac
+
+    raw = base64.b64decode(salt)
+    mac = hmac.new(raw, hostname.encode(), hashlib.sha1).digest()
+    return "|1|%s|%s" % (salt, base64.b64encode(mac).decode())
+
+
+WEAK_DIGESTS = {
+    "xor-of-bytes": lambda s: __import__("functools").reduce(lambda x, y: x ^ y, s.encode(), 0),
+    "sum-of-bytes": lambda s: sum(s.encode()) % 256,
+    "first-and-last-byte": lambda s: (s[-1], s[-2]),      # the last two characters of the base64 text (incl. padding)
+    "sorted-bytes": lambda s: "".join(sorted(s)),
+}
+
+
+def weak_collisions(target="alpha.example.com", limit=4000):
+    """{digest name: another host name whose hashed form differs from target's but agrees with it under that weak
+    digest}: found by search; names for which no collision turns up within `limit` candidates are left out"""
+    if "weak" in _cache:
+        return _cache["weak"]
+    ref = hashed_name(target)
+    out = {}
+    for i in range(limit):
+        cand = "host%d.example.com" % i
+        h = hashed_name(cand)
+        if h == ref or len(h) != len(ref):
+            continue
+        for dn, f in WEAK_DIGESTS.items():
+            if dn not in out and f(h) == f(ref):
+                out[dn] = cand
+        if len(out) == len(WEAK_DIGESTS):
+            break
+    _cache["weak"] = out
+    return out
+
+
+def cancelling_pairs(rng, n):
+    """pairs (a, b) of equal length that differ in 2+ positions in ways that cancel under weak comparisons: same XOR
+    fold, same byte sum, permutations; plus equal pairs and single-position differences"""
+    out = []
+    for _ in range(n):
+        ln = rng.randrange(2, 40)
+        a = bytearray(rng.randrange(32, 127) for _ in range(ln))
+        kind = rng.choice(["equal", "one-position", "same-xor", "same-sum", "permutation", "xor-triple", "length"])
+        b = bytearray(a)
+        i, j = rng.sample(range(ln), 2)
+        if kind == "one-position":
+            b[i] ^= 1 << rng.randrange(7)
+        elif kind == "same-xor":
+            d = 1 << rng.randrange(5)
+            b[i] ^= d
+            b[j] ^= d
+        elif kind == "same-sum":
+            if b[i] < 126 and b[j] > 32:
+                b[i] += 1
+                b[j] -= 1
+        elif kind == "permutation":
+            b[i], b[j] = b[j], b[i]
+        elif kind == "xor-triple" and ln >= 3:
+            k = [x for x in range(ln) if x not in (i, j)][0]
+            b[i] ^= 1
+            b[j] ^= 2
+            b[k] ^= 3
+        elif kind == "length":
+            b = b[:-1]
+        out.append((kind, bytes(a), bytes(b)))
+    return out
